@@ -48,7 +48,8 @@ ItemsSchema == {
   It("def", "schema", "", <<"d">>, <<>>, <<<<"query", "Query">>, <<"mutation", "Mutation">>>>),
   It("ext", "schema", "", <<"d">>, <<>>, <<>>),
   It("ext", "schema", "", <<>>, <<>>, <<<<"mutation", "Mutation">>>>),
-  It("ext", "schema", "", <<"e">>, <<>>, <<<<"subscription", "Q">>>>) }
+  It("ext", "schema", "", <<"e">>, <<>>, <<<<"subscription", "Q">>>>),
+  It("ext", "schema", "", <<>>, <<>>, <<<<"query", "Mutation">>>>) }     \* same operation as the definitions, another type
 
 ItemsDirectives == {
   It("def", "directive", "d", <<>>, <<>>, <<>>),
